@@ -274,6 +274,21 @@ theorem departure_never_wedges_batch {cfg : Cfg} (hfix : cfg.fixed = true) (hcap
   obtain ⟨s', h1, h2, _⟩ := lift hfix hcap hp' hr rfl hd
   exact ⟨s', h1, by rw [h2]; exact he⟩
 
+/-- **departure_never_wedges (Batch), every schedule** (C06 `none_stranded_all_schedules` carried to
+the batcher through `run_proj`): take ANY run of the batcher from a reachable open state in which `x`
+is live and due and the loop's pending timer is due — any interleaving of the loop, `execute`, the
+forwarders, readers, cancellations, Subscribe calls; only no `Batch`, no clock advance, no `Close`
+call in it.  As soon as the queue's loop has taken `40·|queue| + 32` steps in that run, `x`'s
+fan-out has started: the loop cannot go round for ever without delivering it, whatever its selects
+and the heap's tie-break choose.  (That the loop is never stuck behind the fan-out is
+`departure_never_wedges_execute`.) -/
+theorem departure_never_wedges_batch_all_schedules {cfg : Cfg} {s s' : State} (hr : Reach (Batcher.lts cfg) s)
+    (hopen : s.p.stopped = false) {x : It} (hx : x ∈ s.p.q) (hdue : x.time ≤ s.p.now) (ht : Timely s.p)
+    {ls : List Label} (hrun : runFrom cfg s ls = some s') (hnc : ∀ a ∈ ls, a ≠ .closeCall)
+    (hloop : ∀ l ∈ projProc ls, l.isLoop = true) (hlen : 40 * s.p.q.length + 32 ≤ (projProc ls).length) :
+    Event.exec x s.p.now ∈ s'.p.log :=
+  ((C06.none_stranded_all_schedules (reach_proj hr) hopen hx hdue ht) (projProc ls) s'.p (run_proj hrun hnc) hloop).2.1 hlen
+
 /-- **departure_never_wedges (Close)**: from every reachable state in which `Close` has been
 called (`stopped` is set by the first call; any number of further calls may be in any phase), EVERY
 pending `Close` call returns: none is left inside `queue.Close()` (`cq`, and the processor's own
